@@ -318,7 +318,11 @@ func GenField(t *rapid.T, typ uint16, spec wm.FieldSpec, prev []wm.Field, o *Opt
 			}
 		}
 	case wm.L16:
-		f.B = Bytes(t, Len(t, 0, 300), false)
+		n := Len(t, 0, 300)
+		if o.BigBlob && rapid.IntRange(0, 30).Draw(t, "bigl16") == 0 {
+			n = rapid.SampledFrom([]int{1024, 4096, 16384, 32767, 32768, 40000, 60000}).Draw(t, "bigl16n")
+		}
+		f.B = Bytes(t, n, false)
 	case wm.IPv4:
 		f.B = Bytes(t, 4, false)
 	case wm.IPv6:
@@ -525,7 +529,11 @@ func SvcParams(t *rapid.T, o *Opts) []wm.Option {
 				d = append(d, ip...)
 			}
 		default:
-			d = Bytes(t, Len(t, 0, 40), false)
+			n := Len(t, 0, 40)
+			if o.BigBlob && rapid.IntRange(0, 30).Draw(t, "bigparam") == 0 {
+				n = rapid.SampledFrom([]int{255, 256, 1024, 4096, 16383, 16384, 32767, 32768, 33000, 45000, 60000}).Draw(t, "bigparamn")
+			}
+			d = Bytes(t, n, false)
 		}
 		if d == nil {
 			d = []byte{}
